@@ -2,11 +2,23 @@
    placed anywhere on the timeline.
    input  (EV ...)
      EV = (sin)      the remote peer calls this side (CALL frame on the stream)
+        | (sin sKIND) the same, KIND = how handleCall arrives at its reply on this side:
+                        ok | stat (the handler returns an error status) | panic (the handler panics)
+                        | unenc (a result the body codec refuses) | big (a result over the size limit)
+                        | nf (no such service method: no user code runs; with (scfg sunk) the
+                          unknown-call handler serves it) | veto (a postReadCallBody hook parks like a
+                          handler, then refuses) | wpanic (a preWriteReply hook panics)
+                        | ppanic (a postWriteReply hook panics after the reply was written)
+        | (scfg spost)  gate call.postreply is armed: every handler parks after its FIRST reply
+                        write (before the substitute write, if one follows)
+        | (scfg sunk)   an unknown-call handler is registered on this side
+        | (srelpost)    everyone parked at gate call.postreply proceeds
+        | (soffpost)    the gate is disarmed for good
         | (sout)     this side issues a call; the remote handler parks
         | (sqrep nK) the remote handler of outgoing call K returns (its reply is sent)
         | (sclose)   Session.Close() is called
         | (srelrun)  the oldest running local handler returns (then parks before its reply)
-        | (srelpre)  the oldest handler parked before its reply write proceeds
+        | (srelpre)  the handler that has been parked longest before its reply write proceeds
         | (sarmgot) | (srelgot)  gate read.got: the reader parks between reading a frame and
                                  counting its context
         | (sclose2)  another Session.Close() (queues on the session lock behind a running one)
@@ -16,15 +28,22 @@
         | (sstallw) | (srelw)  the connection stalls the NEXT write of this side half-way (the
                                writer keeps the session write lock) / lets it finish
    observed = per event ((nCLOSE-CALLS nRETURNED) sSTATUS nSTARTS (IN-CLASS ...) (OUT-CLASS ...) (PUSH-CLASS ...))
+     nSTARTS counts entries into user code (handler, parking hook); IN-CLASS is the remote caller's
+     view: ok | code500 | code404 | code1001 | code1002 | connclosed | pending.
+   The reply procedure of a CALL context is Model/ReplyPath.v: a first write whose body Pack
+   refuses leaves the session machine where it is (nothing reaches the connection; it needs the
+   admission by the status check and the write lock), then [wants_fallback] decides whether the
+   substitute write - the machine's K2 / K2w / K4 - is made.
    The session write lock is held only inside the write step (status check K2/A2 first, then
    lock+write+unlock = K2w/A2w, the order of session.write); a stalled write is that step
    withheld while every other write step is disabled. *)
 From Coq Require Import Strings.String Strings.Byte.
 From Coq Require Import List Arith NArith ZArith Bool Lia.
-From Verif Require Import Base.Bytes Base.Val Model.Lifecycle Model.CallLife Model.Graceful.
+From Verif Require Import Base.Bytes Base.Val Model.Lifecycle Model.CallLife Model.Graceful Model.ReplyPath.
 Import ListNotations.
 
 Inductive inrec := InQueued (i : nat) | InLost.
+
 
 Record gx := mkGx {
   x_arm : bool;                    (* the next write of this side will stall *)
@@ -36,14 +55,62 @@ Record gx := mkGx {
   x_qpre : list nat                (* outgoing calls whose remote handler was let go before the request went out *)
 }.
 
+Inductive ikind := IkOk | IkStat | IkPanic | IkUnenc | IkBig | IkNf | IkVeto | IkWpanic | IkPpanic.
+
+(* per incoming call that got a context, in frame order: its kind and the phase of its first
+   reply write: 0 not begun; 1 (a body Pack refuses) past the status check, waiting for the
+   write lock; 2 first write over, at gate call.postreply; 3 past the gate *)
 Record g8 := mkG8 {
   g_s : sess; g_q : list frame; g_got : bool;
   g_relrun : option nat; g_relpre : option nat;   (* hctx allowed to leave its parking place *)
-  g_ins : list inrec; g_nin : nat; g_closing : bool; g_x : gx
+  g_ins : list inrec; g_nin : nat; g_closing : bool; g_x : gx;
+  g_ic : list (ikind * nat);      (* by ordinal among the CALL contexts *)
+  g_preq : list nat;              (* hctx indices parked at gate call.prereply, in arrival order *)
+  g_post : bool;                  (* gate call.postreply armed *)
+  g_unk : bool                    (* an unknown-call handler is registered *)
 }.
 
-Definition set_s (g : g8) (s : sess) := mkG8 s (g_q g) (g_got g) (g_relrun g) (g_relpre g) (g_ins g) (g_nin g) (g_closing g) (g_x g).
-Definition set_x (g : g8) (x : gx) := mkG8 (g_s g) (g_q g) (g_got g) (g_relrun g) (g_relpre g) (g_ins g) (g_nin g) (g_closing g) x.
+Definition set_s (g : g8) (s : sess) := mkG8 s (g_q g) (g_got g) (g_relrun g) (g_relpre g) (g_ins g) (g_nin g) (g_closing g) (g_x g) (g_ic g) (g_preq g) (g_post g) (g_unk g).
+Definition set_x (g : g8) (x : gx) := mkG8 (g_s g) (g_q g) (g_got g) (g_relrun g) (g_relpre g) (g_ins g) (g_nin g) (g_closing g) x (g_ic g) (g_preq g) (g_post g) (g_unk g).
+Definition set_q (g : g8) (q : list frame) := mkG8 (g_s g) q (g_got g) (g_relrun g) (g_relpre g) (g_ins g) (g_nin g) (g_closing g) (g_x g) (g_ic g) (g_preq g) (g_post g) (g_unk g).
+Definition set_got (g : g8) (b : bool) := mkG8 (g_s g) (g_q g) b (g_relrun g) (g_relpre g) (g_ins g) (g_nin g) (g_closing g) (g_x g) (g_ic g) (g_preq g) (g_post g) (g_unk g).
+Definition set_relrun (g : g8) (o : option nat) := mkG8 (g_s g) (g_q g) (g_got g) o (g_relpre g) (g_ins g) (g_nin g) (g_closing g) (g_x g) (g_ic g) (g_preq g) (g_post g) (g_unk g).
+Definition set_relpre (g : g8) (o : option nat) := mkG8 (g_s g) (g_q g) (g_got g) (g_relrun g) o (g_ins g) (g_nin g) (g_closing g) (g_x g) (g_ic g) (g_preq g) (g_post g) (g_unk g).
+Definition set_ins (g : g8) (l : list inrec) (n : nat) := mkG8 (g_s g) (g_q g) (g_got g) (g_relrun g) (g_relpre g) l n (g_closing g) (g_x g) (g_ic g) (g_preq g) (g_post g) (g_unk g).
+Definition set_closing (g : g8) := mkG8 (g_s g) (g_q g) (g_got g) (g_relrun g) (g_relpre g) (g_ins g) (g_nin g) true (g_x g) (g_ic g) (g_preq g) (g_post g) (g_unk g).
+Definition set_ic (g : g8) (l : list (ikind * nat)) := mkG8 (g_s g) (g_q g) (g_got g) (g_relrun g) (g_relpre g) (g_ins g) (g_nin g) (g_closing g) (g_x g) l (g_preq g) (g_post g) (g_unk g).
+Definition set_preq (g : g8) (l : list nat) := mkG8 (g_s g) (g_q g) (g_got g) (g_relrun g) (g_relpre g) (g_ins g) (g_nin g) (g_closing g) (g_x g) (g_ic g) l (g_post g) (g_unk g).
+Definition set_post (g : g8) (b : bool) := mkG8 (g_s g) (g_q g) (g_got g) (g_relrun g) (g_relpre g) (g_ins g) (g_nin g) (g_closing g) (g_x g) (g_ic g) (g_preq g) b (g_unk g).
+Definition set_unk (g : g8) (b : bool) := mkG8 (g_s g) (g_q g) (g_got g) (g_relrun g) (g_relpre g) (g_ins g) (g_nin g) (g_closing g) (g_x g) (g_ic g) (g_preq g) (g_post g) b.
+
+(* how handleCall arrives at its reply for a call of this kind *)
+Definition hret_of (unk : bool) (k : ikind) : hret :=
+  match k with
+  | IkOk => HrOk
+  | IkStat | IkVeto => HrStatus
+  | IkNf => if unk then HrOk else HrStatus
+  | IkPanic | IkWpanic => HrPanic
+  | IkUnenc | IkBig => HrUnpack
+  | IkPpanic => HrPostPanic
+  end.
+
+(* no user code runs for it: nothing parks inside the handling *)
+Definition no_user_code (unk : bool) (k : ikind) : bool :=
+  match k with IkNf => negb unk | _ => false end.
+
+(* a panic unwinds past the gates call.prereply / call.postreply *)
+Definition bypasses_gates (r : hret) : bool := match r with HrPanic => true | _ => false end.
+
+(* ordinal of hctx j among the CALL contexts *)
+Fixpoint ord_of (hs : list hctx) (j : nat) : nat :=
+  match j, hs with
+  | S j', h :: r => (match k_kind h with KCall => 1 | _ => 0 end) + ord_of r j'
+  | _, _ => 0
+  end.
+
+Definition ic_at (g : g8) (o : nat) : ikind * nat := nth o (g_ic g) (IkOk, 0).
+Definition set_ph (g : g8) (o : nat) (ph : nat) : g8 :=
+  set_ic g (upd (g_ic g) o (fst (ic_at g o), ph)).
 
 (* the result of a write of this side, fixed by the scripted connection *)
 Definition wr_of (s : sess) : wres := if negb (sock s) then WClosed else if conn s then WOk else WOther.
@@ -86,8 +153,7 @@ Definition caller_free (g : g8) (i : nat) : option g8 :=
                      | WOk =>
                          if existsb (Nat.eqb i) (x_qpre x) then
                            (* its handler was let go already: the reply comes at once *)
-                           option_map (fun g' => mkG8 (g_s g') (g_q g' ++ [FrReply i FOk]) (g_got g') (g_relrun g') (g_relpre g')
-                                                      (g_ins g') (g_nin g') (g_closing g') (g_x g')) st
+                           option_map (fun g' => set_q g' (g_q g' ++ [FrReply i FOk])) st
                          else
                            option_map (fun g' => set_x g' (mkGx (x_arm x) (x_hold x) (x_calls x) (x_wait x) (x_ret x) (x_qrun x ++ [i]) (x_qpre x))) st
                      | _ => st end in
@@ -97,24 +163,56 @@ Definition caller_free (g : g8) (i : nat) : option g8 :=
   | None => None
   end.
 
-(* a local CALL handler parks inside the user handler (K1) and before its reply write (K2) *)
+(* a local CALL handler parks inside the user code (K1) and at gate call.prereply before its
+   first reply write (K2, phase 0); with gate call.postreply armed, after its first write too *)
 Definition handler_free (g : g8) (j : nat) : option g8 :=
   let s := g_s g in
+  let mstep := option_map (set_s g) (handler_step s j false (wr_of s)) in
   match nth_error (hctxs s) j with
   | Some h =>
-      match k_kind h, k_pc h with
-      | KCall, K1 =>
-          if is_some_nat (g_relrun g) j then
-            option_map (fun s' => mkG8 s' (g_q g) (g_got g) None (g_relpre g) (g_ins g) (g_nin g) (g_closing g) (g_x g))
-                       (handler_step s j false (wr_of s))
-          else None
-      | KCall, K2 =>
-          if is_some_nat (g_relpre g) j then
-            option_map (fun s' => mkG8 s' (g_q g) (g_got g) (g_relrun g) None (g_ins g) (g_nin g) (g_closing g) (g_x g))
-                       (handler_step s j false (wr_of s))
-          else None
-      | _, K2w => gate_write g (false, j) (option_map (set_s g) (handler_step s j false (wr_of s)))
-      | _, _ => option_map (set_s g) (handler_step s j false (wr_of s))
+      match k_kind h with
+      | KCall =>
+          let o := ord_of (hctxs s) j in
+          let k := fst (ic_at g o) in
+          let ph := snd (ic_at g o) in
+          let r := hret_of (g_unk g) k in
+          match k_pc h with
+          | K1 =>
+              if no_user_code (g_unk g) k || is_some_nat (g_relrun g) j then
+                match handler_step s j false (wr_of s) with
+                | Some s' =>
+                    let g1 := set_s g s' in
+                    let g2 := if is_some_nat (g_relrun g) j then set_relrun g1 None else g1 in
+                    (* it arrives at gate call.prereply unless a panic carries it past *)
+                    Some (if bypasses_gates r then g2 else set_preq g2 (g_preq g2 ++ [j]))
+                | None => None
+                end
+              else None
+          | K2 =>
+              if bypasses_gates r then mstep
+              else
+                match ph with
+                | 0 =>
+                    if is_some_nat (g_relpre g) j then
+                      if packs r then option_map (fun g' => set_relpre g' None) mstep
+                      else if admits (st s) true then Some (set_relpre (set_ph g o 1) None)
+                      else option_map (fun g' => set_relpre g' None) mstep   (* refused: connection closed, no substitute *)
+                    else None
+                | 1 => (* Pack fails under the write lock *)
+                    match x_hold (g_x g) with Some _ => None | None => Some (set_ph g o 2) end
+                | 2 => if g_post g then None else Some (set_ph g o 3)
+                | _ => if wants_fallback the_code (sess_write_reply Ok false WOk) (st s) then mstep else None
+                end
+          | K2w => gate_write g (false, j) mstep
+          | K4 =>
+              if bypasses_gates r || negb (g_post g) || (3 <=? ph) then mstep else None
+          | _ => mstep
+          end
+      | _ =>
+          match k_pc h with
+          | K2w => gate_write g (false, j) mstep
+          | _ => mstep
+          end
       end
   | None => None
   end.
@@ -171,7 +269,7 @@ Definition one_move (g : g8) : option g8 :=
           if negb (sock s) then option_map (set_s g) (frame_step s FrErr)
           else match g_q g with
                | f :: q => match frame_step s f with
-                           | Some s' => Some (mkG8 s' q (g_got g) (g_relrun g) (g_relpre g) (g_ins g) (g_nin g) (g_closing g) (g_x g))
+                           | Some s' => Some (set_q (set_s g s') q)
                            | None => None
                            end
                | [] => if negb (conn s) then option_map (set_s g) (frame_step s FrErr) else None
@@ -189,32 +287,67 @@ Fixpoint settle (fuel : nat) (g : g8) : g8 :=
 Definition reader_alive (s : sess) : bool :=
   match rd s with R0 | R2 | RLook _ _ | RLock _ _ | R3 _ | R4 _ => true | _ => false end.
 
-(* index of the oldest CALL handler context at a given pc *)
+(* index of the oldest CALL handler context parked inside the user code *)
 Fixpoint oldest_at (hs : list hctx) (p : kpc) (j : nat) : option nat :=
   match hs with
   | [] => None
   | h :: r =>
       match k_kind h, k_pc h, p with
       | KCall, K1, K1 => Some j
-      | KCall, K2, K2 => Some j
       | _, _, _ => oldest_at r p (S j)
       end
+  end.
+
+Fixpoint nth_call_ctx (hs : list hctx) (i : nat) : option hctx :=
+  match hs with
+  | [] => None
+  | h :: r => match k_kind h with
+              | KCall => match i with O => Some h | S i' => nth_call_ctx r i' end
+              | _ => nth_call_ctx r i
+              end
+  end.
+
+Definition kind_of_sym (k : bytes) : option ikind :=
+  if bytes_eqb k (str "ok") then Some IkOk
+  else if bytes_eqb k (str "stat") then Some IkStat
+  else if bytes_eqb k (str "panic") then Some IkPanic
+  else if bytes_eqb k (str "unenc") then Some IkUnenc
+  else if bytes_eqb k (str "big") then Some IkBig
+  else if bytes_eqb k (str "nf") then Some IkNf
+  else if bytes_eqb k (str "veto") then Some IkVeto
+  else if bytes_eqb k (str "wpanic") then Some IkWpanic
+  else if bytes_eqb k (str "ppanic") then Some IkPpanic
+  else None.
+
+Definition ev_in (g : g8) (k : ikind) : g8 :=
+  let s := g_s g in
+  if sock s && conn s && reader_alive s then
+    set_ic (set_ins (set_q g (g_q g ++ [FrCall])) (g_ins g ++ [InQueued (g_nin g)]) (S (g_nin g)))
+           (g_ic g ++ [(k, 0)])
+  else set_ins g (g_ins g ++ [InLost]) (g_nin g).
+
+(* everyone parked at gate call.postreply proceeds: the contexts whose first write is over *)
+Fixpoint release_post (hs : list hctx) (ic : list (ikind * nat)) (o : nat) : list (ikind * nat) :=
+  match ic with
+  | [] => []
+  | (k, ph) :: r =>
+      let parked := match nth_call_ctx hs o with
+                    | Some h => match k_pc h with K4 => true | K2 => Nat.eqb ph 2 | _ => false end
+                    | None => false end in
+      (k, if parked then 3 else ph) :: release_post hs r (S o)
   end.
 
 Definition do_ev (g : g8) (ev : val) : option g8 :=
   match ev with
   | VL [VS k] =>
       let s := g_s g in
-      if bytes_eqb k (str "in") then
-        if sock s && conn s && reader_alive s then
-          Some (mkG8 s (g_q g ++ [FrCall]) (g_got g) (g_relrun g) (g_relpre g) (g_ins g ++ [InQueued (g_nin g)]) (S (g_nin g)) (g_closing g) (g_x g))
-        else Some (mkG8 s (g_q g) (g_got g) (g_relrun g) (g_relpre g) (g_ins g ++ [InLost]) (g_nin g) (g_closing g) (g_x g))
+      if bytes_eqb k (str "in") then Some (ev_in g IkOk)
       else if bytes_eqb k (str "out") then Some (set_s g (issue s))
       else if bytes_eqb k (str "close") || bytes_eqb k (str "close2") then
         let x := g_x g in
         match close_call s with
-        | Some s' => Some (mkG8 s' (g_q g) (g_got g) (g_relrun g) (g_relpre g) (g_ins g) (g_nin g) true
-                              (mkGx (x_arm x) (x_hold x) (S (x_calls x)) (x_wait x) (x_ret x) (x_qrun x) (x_qpre x)))
+        | Some s' => Some (set_closing (set_x (set_s g s')
+                              (mkGx (x_arm x) (x_hold x) (S (x_calls x)) (x_wait x) (x_ret x) (x_qrun x) (x_qpre x))))
         | None => Some (set_x g (mkGx (x_arm x) (x_hold x) (S (x_calls x)) (S (x_wait x)) (x_ret x) (x_qrun x) (x_qpre x)))
         end
       else if bytes_eqb k (str "pclose") then
@@ -223,8 +356,8 @@ Definition do_ev (g : g8) (ev : val) : option g8 :=
         match st s with
         | Ok =>
             match close_call s with
-            | Some s' => Some (mkG8 s' (g_q g) (g_got g) (g_relrun g) (g_relpre g) (g_ins g) (g_nin g) true
-                                  (mkGx (x_arm x) (x_hold x) (S (x_calls x)) (x_wait x) (x_ret x) (x_qrun x) (x_qpre x)))
+            | Some s' => Some (set_closing (set_x (set_s g s')
+                                  (mkGx (x_arm x) (x_hold x) (S (x_calls x)) (x_wait x) (x_ret x) (x_qrun x) (x_qpre x))))
             | None => Some (set_x g (mkGx (x_arm x) (x_hold x) (S (x_calls x)) (S (x_wait x)) (x_ret x) (x_qrun x) (x_qpre x)))
             end
         | _ => Some (set_x g (mkGx (x_arm x) (x_hold x) (S (x_calls x)) (x_wait x) (S (x_ret x)) (x_qrun x) (x_qpre x)))
@@ -242,14 +375,24 @@ Definition do_ev (g : g8) (ev : val) : option g8 :=
         end
       else if bytes_eqb k (str "relw") then
         let x := g_x g in Some (set_x g (mkGx false None (x_calls x) (x_wait x) (x_ret x) (x_qrun x) (x_qpre x)))
-      else if bytes_eqb k (str "relrun") then
-        Some (mkG8 s (g_q g) (g_got g) (oldest_at (hctxs s) K1 0) (g_relpre g) (g_ins g) (g_nin g) (g_closing g) (g_x g))
+      else if bytes_eqb k (str "relrun") then Some (set_relrun g (oldest_at (hctxs s) K1 0))
       else if bytes_eqb k (str "relpre") then
-        Some (mkG8 s (g_q g) (g_got g) (g_relrun g) (oldest_at (hctxs s) K2 0) (g_ins g) (g_nin g) (g_closing g) (g_x g))
-      else if bytes_eqb k (str "armgot") then
-        Some (mkG8 s (g_q g) true (g_relrun g) (g_relpre g) (g_ins g) (g_nin g) (g_closing g) (g_x g))
-      else if bytes_eqb k (str "relgot") then
-        Some (mkG8 s (g_q g) false (g_relrun g) (g_relpre g) (g_ins g) (g_nin g) (g_closing g) (g_x g))
+        (* the gate frees whoever has been parked there longest *)
+        match g_preq g with
+        | j :: r => Some (set_preq (set_relpre g (Some j)) r)
+        | [] => Some g
+        end
+      else if bytes_eqb k (str "relpost") then Some (set_ic g (release_post (hctxs s) (g_ic g) 0))
+      else if bytes_eqb k (str "offpost") then Some (set_post g false)
+      else if bytes_eqb k (str "armgot") then Some (set_got g true)
+      else if bytes_eqb k (str "relgot") then Some (set_got g false)
+      else None
+  | VL [VS k; VS a] =>
+      if bytes_eqb k (str "in") then option_map (ev_in g) (kind_of_sym a)
+      else if bytes_eqb k (str "cfg") then
+        if bytes_eqb a (str "post") then Some (set_post g true)
+        else if bytes_eqb a (str "unk") then Some (set_unk g true)
+        else None
       else None
   | VL [VS k; VN i] =>
       if bytes_eqb k (str "qrep") then
@@ -261,7 +404,7 @@ Definition do_ev (g : g8) (ev : val) : option g8 :=
         | Some c =>
             (* the remote handler ran only if the request reached it *)
             if c_wrote c && (c_dones c =? 0) && reader_alive s && sock s && conn s
-            then Some (mkG8 s (g_q g ++ [FrReply (N.to_nat i) FOk]) (g_got g) (g_relrun g) (g_relpre g) (g_ins g) (g_nin g) (g_closing g) (g_x g))
+            then Some (set_q g (g_q g ++ [FrReply (N.to_nat i) FOk]))
             else if negb (c_wrote c) && (c_dones c =? 0) then
               (* the request has not gone out yet (its write is queued or stalled): the
                  handler will not park when it arrives *)
@@ -289,29 +432,43 @@ Definition status_sym (x : status) : val :=
   | RedialFailed => vsym "redial-failed"
   end.
 
-Fixpoint nth_call_ctx (hs : list hctx) (i : nat) : option hctx :=
-  match hs with
-  | [] => None
-  | h :: r => match k_kind h with
-              | KCall => match i with O => Some h | S i' => nth_call_ctx r i' end
-              | _ => nth_call_ctx r i
-              end
+(* the frame that a successful reply write of this context carried (Model/ReplyPath.v): the
+   first write's frame, or the internal-server-error substitute after a body Pack refused *)
+Definition written_frame (unk : bool) (k : ikind) : rframe :=
+  let r := hret_of unk k in if packs r then first_frame r else F500.
+
+Definition frame_class (k : ikind) (f : rframe) : val :=
+  match f with
+  | FResult => vsym "ok"
+  | F500 => vsym "code500"
+  | FStatus => match k with IkNf => vsym "code404" | IkVeto => vsym "code1002" | _ => vsym "code1001" end
   end.
 
 (* what the remote caller sees for its call: the reply if it was written; a connection error
    once the connection is gone (qidle: and the remote session's disconnect path may cancel -
    always, since it cancels before its wait for the remote handlers); nothing yet otherwise *)
-Definition in_class (s : sess) (qidle : bool) (r : inrec) : val :=
+Definition in_class (g : g8) (qidle : bool) (r : inrec) : val :=
+  let s := g_s g in
   match r with
   | InLost => vsym "connclosed"
   | InQueued i =>
       match nth_call_ctx (hctxs s) i with
       | Some h => match k_res h with
-                  | WrWritten => vsym "ok"
+                  | WrWritten => let k := fst (ic_at g i) in frame_class k (written_frame (g_unk g) k)
                   | _ => if (negb (sock s) || negb (conn s)) && qidle then vsym "connclosed" else vsym "pending"
                   end
       | None => if (negb (sock s) || negb (conn s)) && qidle then vsym "connclosed" else vsym "pending"
       end
+  end.
+
+(* contexts whose handling has begun (past K0) although no user code runs for them *)
+Fixpoint silent_starts (unk : bool) (hs : list hctx) (ic : list (ikind * nat)) (o : nat) : nat :=
+  match ic with
+  | [] => 0
+  | (k, _) :: r =>
+      (match nth_call_ctx hs o with
+       | Some h => match k_pc h with K0 => 0 | _ => if no_user_code unk k then 1 else 0 end
+       | None => 0 end) + silent_starts unk hs r (S o)
   end.
 
 Definition push_class (h : hctx) : val :=
@@ -328,10 +485,10 @@ Definition obs (g : g8) : val :=
   let s := g_s g in
   VL [ VL [VN (N.of_nat (x_calls (g_x g))); VN (N.of_nat (x_ret (g_x g)))];
        status_sym (st s);
-       VN (N.of_nat (starts s));
+       VN (N.of_nat (starts s - silent_starts (g_unk g) (hctxs s) (g_ic g) 0));
        (* since 33a3798 the remote session cancels its pending calls before it waits for its own
           handlers: its parked handlers (x_qrun) no longer delay what its callers see *)
-       VL (map (in_class s true) (g_ins g));
+       VL (map (in_class g true) (g_ins g));
        VL (map (fun c => if c_dones c =? 0 then vsym "pending" else class_of (c_stat c)) (calls s));
        VL (map push_class (filter (fun h => match k_kind h with KPushOut => true | _ => false end) (hctxs s))) ].
 
@@ -354,7 +511,7 @@ Definition live0 : sess := mkSess Ok true true 0 0 0 0 [] [] R2 CIdle 0%N true 0
 
 Definition run (inp : val) : option val :=
   match inp with
-  | VL evs => option_map VL (run_evs 3000 (mkG8 live0 [] false None None [] 0 false (mkGx false None 0 0 0 [] [])) evs)
+  | VL evs => option_map VL (run_evs 3000 (mkG8 live0 [] false None None [] 0 false (mkGx false None 0 0 0 [] []) [] [] false false) evs)
   | _ => None
   end.
 
